@@ -7,6 +7,21 @@ CLAIMS = {
         "note": "Trusts CPython's ast and re._parser and the /verif/sa interpreter; operand type tags are abstract inputs (Pregex.__infer_type is not interpreted); re's repetition semantics assumed.",
         "technique": "abstract interpretation of the AST with trace partitioning over an order-type domain + regex-parser oracle",
     },
+    "C02": {
+        "text": "Decides the structural core of automatic grouping for all operand categories: the grouping accessors are evaluated per type tag against the minimum that regex precedence requires (R-TABLE); every non-quantifier builder (15 methods + Conditional) is walked by the abstract interpreter for every receiver type x argument type and its emitted text must parse, with CPython's parser, to the tree of the fully parenthesised composition (R-HOLE); every class/operator spelling must emit what the method emits (R-DELEG).",
+        "note": "Necessary condition only: whether Pregex.__infer_type assigns the right type tag to arbitrary run-time text is not decided. Witnesses per syntactic category are representative because a syntactic scan shows builders look at operand text only via emission, prefix tests and constant rewrites. Trusts ast, re._parser, /verif/sa.",
+        "technique": "abstract interpretation of builder ASTs over type-tag x witness domain + syntax-tree equality with the parenthesised reference",
+    },
+    "C05": {
+        "text": "Complete case analysis: the Empty abstract operand is substituted in every operand position the property names (16 quantifier entries x all bounds, capture/group, concat/+/Concat, enclose, later alternative of either, 6 look-arounds in method and class form, __Operator with 0/1/many operands) and the interpreter's outcome must be the other operand itself, the empty pattern, or EmptyNegativeAssertionException.",
+        "note": "The classification '' -> Empty is read off the first branch of __infer_type (checked structurally on every run); aliasing safety of `return self` rests on C20. Trusts ast, re._parser, /verif/sa.",
+        "technique": "abstract interpretation of builder ASTs with the Empty operand in each position",
+    },
+    "C09": {
+        "text": "R-REPEAT: raise-iff-can-repeat for all 16 quantifier entry points x bounds x receiver kinds (projection of C04's outcome table). R-FLAGSRC: who-may-write rule for the repeatable flag and return-shape rule of __infer_type. R-RECOG: every assertion emitter's template (walked on operand witnesses) is accepted by the matching recogniser constant and rejected by the other.",
+        "note": "Not decided: false positives/negatives of the recognisers on arbitrary run-time text (e.g. literals ending in '$'), bare anchors from the empty pattern. Trusts ast, re._parser, re, /verif/sa.",
+        "technique": "abstract interpretation (outcome table) + ownership rule on a field + writer/reader agreement of templates and regex constants",
+    },
 }
 
 NOT_APPLICABLE = {
